@@ -90,18 +90,21 @@ pub trait VF: Fixed + 'static {
 
 /// "all five az cast traits from Self to T" as one bound; every type satisfies it when the harness is built without `az`
 #[cfg(feature = "az")]
-pub trait AzAll<T>: Copy + az::Cast<T> + az::CheckedCast<T> + az::SaturatingCast<T> + az::WrappingCast<T> + az::OverflowingCast<T> {}
+#[allow(deprecated)]
+pub trait AzAll<T>: Copy + az::Cast<T> + az::CheckedCast<T> + az::SaturatingCast<T> + az::WrappingCast<T> + az::OverflowingCast<T> + az::StaticCast<T> {}
 #[cfg(feature = "az")]
-impl<S, T> AzAll<T> for S where S: Copy + az::Cast<T> + az::CheckedCast<T> + az::SaturatingCast<T> + az::WrappingCast<T> + az::OverflowingCast<T> {}
+#[allow(deprecated)]
+impl<S, T> AzAll<T> for S where S: Copy + az::Cast<T> + az::CheckedCast<T> + az::SaturatingCast<T> + az::WrappingCast<T> + az::OverflowingCast<T> + az::StaticCast<T> {}
 #[cfg(not(feature = "az"))]
 pub trait AzAll<T>: Copy {}
 #[cfg(not(feature = "az"))]
 impl<S: Copy, T> AzAll<T> for S {}
 
-/// `az::cast(s)` family, labels `<fam>:plain|checked|saturating|wrapping|overflowing` (steps base..base+5)
+/// `az::cast(s)` family, labels `<fam>:plain|checked|saturating|wrapping|overflowing|static` (steps base..base+6)
 #[cfg(feature = "az")]
 #[inline(always)]
-pub fn az_forms<S: AzAll<T>, T>(st: usize, base: usize, fam: [&'static str; 5], s: S, raw: fn(T) -> u128, outs: &mut Outs) {
+#[allow(deprecated)]
+pub fn az_forms<S: AzAll<T>, T>(st: usize, base: usize, fam: [&'static str; 6], s: S, raw: fn(T) -> u128, outs: &mut Outs) {
     vcore::step!(st, outs, base, fam[0], Out::V(raw(az::cast::<S, T>(s))));
     vcore::step!(st, outs, base + 1, fam[1], Out::O(az::checked_cast::<S, T>(s).map(raw)));
     vcore::step!(st, outs, base + 2, fam[2], Out::V(raw(az::saturating_cast::<S, T>(s))));
@@ -110,12 +113,13 @@ pub fn az_forms<S: AzAll<T>, T>(st: usize, base: usize, fam: [&'static str; 5], 
         let (v, o) = az::overflowing_cast::<S, T>(s);
         Out::F(raw(v), o)
     });
+    vcore::step!(st, outs, base + 5, fam[5], Out::O(az::StaticCast::<T>::static_cast(s).map(raw)));
 }
 #[cfg(not(feature = "az"))]
 #[inline(always)]
-pub fn az_forms<S: AzAll<T>, T>(_st: usize, _base: usize, _fam: [&'static str; 5], _s: S, _raw: fn(T) -> u128, _outs: &mut Outs) {}
-pub const AZ_TO: [&str; 5] = ["az_to:plain", "az_to:checked", "az_to:saturating", "az_to:wrapping", "az_to:overflowing"];
-pub const AZ_FROM: [&str; 5] = ["az_from:plain", "az_from:checked", "az_from:saturating", "az_from:wrapping", "az_from:overflowing"];
+pub fn az_forms<S: AzAll<T>, T>(_st: usize, _base: usize, _fam: [&'static str; 6], _s: S, _raw: fn(T) -> u128, _outs: &mut Outs) {}
+pub const AZ_TO: [&str; 6] = ["az_to:plain", "az_to:checked", "az_to:saturating", "az_to:wrapping", "az_to:overflowing", "az_to:static"];
+pub const AZ_FROM: [&str; 6] = ["az_from:plain", "az_from:checked", "az_from:saturating", "az_from:wrapping", "az_from:overflowing", "az_from:static"];
 
 pub fn ord_out(o: Option<core::cmp::Ordering>) -> Out {
     Out::O(o.map(|x| match x {
